@@ -448,28 +448,36 @@ class Engine:
                 "stmt": stmt_all, "hints": hints, "export": lm.get("export", True), "spec": sp.name}
 
     def sumto(self, n, lam: ast.Lambda, st):
-        """sum_{k<n} body(k): uninterpreted partial-sum function over k and the enclosing bound variables."""
+        """sum_{k<n} body(k): an uninterpreted partial-sum function of k and of the enclosing bound variables,
+        defined by S(.,0)=0 and S(.,k+1)=S(.,k)+body(k) (k>=0).  The recurrence is triggered on S(.,k+1) only
+        (goal-directed; triggering on S(.,k) would be a matching loop)."""
         if len(lam.args.args) != 1:
             raise OutsideSubset("sumto lambda arity")
         k = self.fresh(lam.args.args[0].arg, I)
-        sub = st.copy()
+        sub = State(dict(st.env), st.heap, st.pc)
         sub.env[lam.args.args[0].arg] = k
-        body = num_of_bool(self.ev(lam.body, sub))
-        body = toz(body)
-        # which enclosing bound variables occur?
-        bvs = [b for b in self.bound_vars if _occurs(b, body)]
-        key = z3.Lambda([k] + bvs, body).get_id() if True else None
+        self.bound_vars.append(k)
+        try:
+            body = z3.simplify(toz(num_of_bool(self.ev(lam.body, sub))))
+        finally:
+            self.bound_vars.pop()
+        # parameters of the summand: every free scalar constant in it (enclosing bound variables and scalar
+        # program variables alike), in order of first occurrence -- so alpha-equivalent summands, and summands that
+        # differ only in WHICH scalar they mention, share one partial-sum function
+        bvs = _free_scalars(body, k)
+        canon = [(v, z3.Const("cv!%d" % i, v.sort())) for i, v in enumerate([k] + bvs)]
+        key = ("sum", z3.substitute(body, *canon).sexpr(), tuple(str(v.sort()) for v, _ in canon))
         if key not in self.sum_inst:
             rs = body.sort()
             f = z3.Function("sum!%d" % next(self.fresh_n), *([b.sort() for b in bvs] + [I, rs]))
             zero = z3.IntVal(0) if rs == I else z3.RealVal(0)
             ax = []
             if bvs:
-                ax.append(z3.ForAll(bvs, f(*(bvs + [z3.IntVal(0)])) == zero))
+                ax.append(z3.ForAll(bvs, f(*(bvs + [z3.IntVal(0)])) == zero, patterns=[f(*(bvs + [z3.IntVal(0)]))]))
             else:
                 ax.append(f(z3.IntVal(0)) == zero)
             ax.append(z3.ForAll(bvs + [k], z3.Implies(k >= 0, f(*(bvs + [k + 1])) == f(*(bvs + [k])) + body),
-                                patterns=[f(*(bvs + [k + 1]))] if False else [f(*(bvs + [k]))]))
+                                patterns=[f(*(bvs + [k + 1]))]))
             self.sum_inst[key] = (f, ax)
         f, ax = self.sum_inst[key]
         return f(*(bvs + [to_int_strict(n)]))
@@ -1219,6 +1227,28 @@ class Engine:
             return self.ev(ast.parse(expr, mode="eval").body, sub)
         finally:
             self.spec_mode -= 1
+
+
+def _free_scalars(term, exclude):
+    """free 0-ary uninterpreted Int/Real constants of `term` in DFS order of first occurrence"""
+    out, seen = [], set()
+    ex = exclude.get_id()
+
+    def walk(t):
+        i = t.get_id()
+        if i in seen:
+            return
+        seen.add(i)
+        if z3.is_quantifier(t):
+            walk(t.body())
+            return
+        if z3.is_app(t):
+            if t.num_args() == 0 and t.decl().kind() == z3.Z3_OP_UNINTERPRETED and t.sort() in (I, R) and i != ex:
+                out.append(t)
+            for c in t.children():
+                walk(c)
+    walk(term)
+    return out
 
 
 def _occurs(v, term):
